@@ -56,7 +56,7 @@ def run(ctx):
     # ---- code -> spec: longer random soups; every event carries both modes
     alpha = ["", "-", "--", "---", "--=", "-=", "--aa", "--aa=x", "--aa=", "--aa=7", "--zz", "-a", "-ax", "-ab", "-ba", "-z", "-5",
              "null", "x", "7", "srv", "s", "--bb", "-b", "--a", "--bb=1", "-a7", "-b=", "true", "--aa=null", "--aa=x=y", "--aa==", "-a=", "--bb=",
-             "-", "-ab7", "--aa=-5"]
+             "-", "-ab7", "--aa=-5", "---aa", "---aa=7", "----bb", "---a", "---"]
     n = 800 if quick else 20000
     for k in range(n):
         fi = ctx.rng.randrange(len(formats))
@@ -73,7 +73,7 @@ def run(ctx):
     nm = 600 if quick else 15000
     for k in range(nm):
         f = c01.rand_format(ctx.rng)
-        kind = ctx.rng.choice(["surplus", "unknown", "flagvalue", "stripvalue", "dropreq"])
+        kind = ctx.rng.choice(["surplus", "unknown", "flagvalue", "stripvalue", "dropreq", "unknownval", "overdash", "unkshort"])
         # the shape is a hint that makes the mutation applicable more often; TLC decides applicability (MutPre)
         rc = c01.rand_recipe(ctx.rng, f, {"surplus": "allpos", "dropreq": "reqlast"}.get(kind))
         j = ctx.rng.randint(1, max(1, len(f["opts"])))
@@ -87,6 +87,14 @@ def run(ctx):
             toks = toks + ["zz9"]
         elif kind == "unknown":
             toks = toks + ["--zz9"]
+        elif kind == "unknownval":
+            toks = toks + ["--zz9=v"]
+        elif kind == "unkshort":
+            toks = toks + ["-Q"]
+        elif kind == "overdash":
+            if not f["opts"]:
+                continue
+            toks = toks + ["---" + L.txt(f["opts"][j - 1]["long"])]
         elif kind in ("flagvalue", "stripvalue"):
             if not f["opts"]:
                 continue
